@@ -202,7 +202,7 @@ func runC07(w *World) *Result {
 	r.NotDecided = "that every use inside its scope is accepted (completeness over programs)."
 	r.Rule("R-C07-clone", "context mutations happen on a clone of the received context", 3)
 	r.Rule("R-C07-strip", "function bodies see globals only (non-globals removed from the clone first)", 1)
-	r.Rule("R-C07-lookup", "references are built on the found-branch of the lookup and carry the looked-up definition", 5)
+	r.Rule("R-C07-lookup", "references are built on the found-branch of the lookup and carry the looked-up definition", 3)
 	r.Rule("R-C07-decl", "newness test before each declaration; names of one statement tested against each other", 4)
 	r.Rule("R-C07-place", "break/continue/return/func placement queries; scope constants per construct; final return", 8)
 	r.Rule("R-C07-public", "only public definitions are imported; public = first rune upper case (one predicate feeds every flag)", 3)
